@@ -58,10 +58,19 @@ CLAIMED = {
     "C18": ("online monitor on every frontier / completion-notification / releasable call in full simulations, probe calls on a grid of lookaheads, switches and branch policies at every scheduler start, and a direct random walker over task-graph states",
             "held on the K observed and probed frontier calls and walker steps, apart from the listed known finding",
             "DESIGN.md 4/C18", E2E_NOTE),
+    "C11": ("output monitor on every ILP / TetriSched-Gurobi / Z3 decision plus adversarial re-solves on the captured solver model (feasibility of 'child placed, parent not'; minimise child start - parent finish), live and shadow calls in full simulations, direct Z3 calls",
+            "per captured model the probes are exact (gap 0): no feasible point of that model violates the order; held on the K models captured and the decisions returned, apart from the listed Z3 finding",
+            "DESIGN.md 4/C11", E2E_NOTE + " Probes need a solver licence large enough for the model copy; failures are counted as tooling-inconclusive."),
+    "C12": ("output monitor on every enforcing policy's decision (admission, completion <= deadline), model probes (ILP: maximise completion subject to placed, gap 0; TetriSched: inspection of every placement variable), completion times of exact-runtime planner runs",
+            "held on the K enforcing calls incl. hopeless and exactly-tight deadlines, the probed models and the completed tasks, apart from the listed TetriSched-CPLEX finding",
+            "DESIGN.md 4/C12", E2E_NOTE),
+    "C15": ("output monitor on every ClockworkScheduler decision inside full simulations of model-serving worlds (batch membership, size, model loaded, fit, earliest deadline, placed-once, admission)",
+            "held on the K invocations with persisting queues, pre-loaded and policy-loaded models, both goals",
+            "DESIGN.md 4/C15", E2E_NOTE),
 }
 
 _WIP = "check not built yet in this session; planned with the same technique, see DESIGN.md section 4"
-NOT_YET = {p: _WIP for p in ["C11", "C12", "C14", "C15", "C20"]}
+NOT_YET = {p: _WIP for p in ["C14", "C20"]}
 
 
 def build():
